@@ -679,4 +679,65 @@ example : jAllowed (joinCase ([pinCid 0, pinCid 1, pinCid 2, pinCid 3].map Pin.s
     -- ready before its own addition was applied (WaitForSync without the voter wait): neither admitted nor accepted
     jAllowed (joinCase ([pinCid 0].map Pin.stored)) = false ∧ jHolds (joinCase ([pinCid 0].map Pin.stored)) = false := by decide
 
+/-! ## raftWrapper: a future error is returned as an error (latest vs committed configuration) -/
+
+/-- the code (`recheck = false`) is the Bool-future wrapper the retry loops are stated over: whatever the leader's own
+    log shows after a failed future, the attempt fails and nothing reaches the committed log -/
+theorem wrapper_future_error_is_error (p : Nat) (c : Config) (fut : Fut) :
+    rwAddPeerW false p c fut = rwAddPeer p c (fut == .ok) ∧ rwRemovePeerW false p c fut = rwRemovePeer p c (fut == .ok) := by
+  unfold rwAddPeerW rwAddPeer rwRemovePeerW rwRemovePeer
+  cases fut <;> simp
+
+/-- acknowledged ⇒ committed, at the wrapper: NEEDS "a future error is returned as an error" (`recheck = false`) -/
+theorem ack_implies_committed_wrapper (log : List Entry) (p : Nat) (fut : Fut) :
+    ((rwAddPeerW false p (cfgAt log) fut).1 = .ok →
+      cfgHas (cfgAt (log ++ (rwAddPeerW false p (cfgAt log) fut).2)) p = true) ∧
+    ((rwRemovePeerW false p (cfgAt log) fut).1 = .ok →
+      cfgHas (cfgAt (log ++ (rwRemovePeerW false p (cfgAt log) fut).2)) p = false) := by
+  rw [(wrapper_future_error_is_error p (cfgAt log) fut).1, (wrapper_future_error_is_error p (cfgAt log) fut).2]
+  constructor
+  · intro h
+    cases hh : cfgHas (cfgAt log) p with
+    | true => rw [rwAddPeer_present hh, List.append_nil]; exact hh
+    | false =>
+      unfold rwAddPeer at h ⊢
+      simp only [hh, Bool.false_eq_true, if_false] at h ⊢
+      split_ifs at h ⊢
+      rw [cfgAt_append]; simp only [applyCfg]; rw [cfgHas_cfgPut]; simp
+  · intro h
+    cases hh : cfgHas (cfgAt log) p with
+    | false => rw [rwRemovePeer_absent hh, List.append_nil]; exact hh
+    | true =>
+      unfold rwRemovePeer at h ⊢
+      simp only [hh, Bool.not_true, Bool.false_eq_true, if_false] at h ⊢
+      split_ifs at h ⊢
+      rw [cfgAt_append]; simp only [applyCfg]; rw [cfgHas_cfgErase]; simp
+
+/-- the refuted alternative (seeded change C17e: on a future error trust `rw.Peers()`, i.e. the LATEST configuration):
+    a cut-off leader acknowledges an addition / a removal that no quorum accepted — the committed configuration, which is
+    what every member reports after the partition heals, does not have / still has the peer -/
+theorem recheck_acks_uncommitted :
+    ((rwAddPeerW true 3 (cfgAt [.boot [0, 1, 2]]) .errAppended).1 = .ok ∧
+      cfgHas (cfgAt ([.boot [0, 1, 2]] ++ (rwAddPeerW true 3 (cfgAt [.boot [0, 1, 2]]) .errAppended).2)) 3 = false) ∧
+    ((rwRemovePeerW true 2 (cfgAt [.boot [0, 1, 2]]) .errAppended).1 = .ok ∧
+      cfgHas (cfgAt ([.boot [0, 1, 2]] ++ (rwRemovePeerW true 2 (cfgAt [.boot [0, 1, 2]]) .errAppended).2)) 2 = true) := by
+  decide
+
+/-- everything after the first occurrence of `a`, inclusive -/
+def fromFirst (a : String) (l : List String) : List String := l.dropWhile (· != a)
+
+/-- on today's source: after the Raft call the wrappers do nothing but return the future's error (AddPeer: log, then
+    `return err`; RemovePeer: `if err != nil { return err }; return nil`) — no second look at the configuration -/
+theorem gen_rw_future_error_returned :
+    fromFirst "call:AddVoter" Gen.rwAddPeer = ["call:AddVoter", "if:err != nil", "end", "ret:err"] ∧
+    fromFirst "call:RemoveServer" Gen.rwRemovePeer = ["call:RemoveServer", "if:err != nil", "ret:err", "end", "ret:nil"] := by
+  decide
+
+/-- the partition on real peers (suite `fault`, plan `p`): acknowledged by the cut-off leader, in nobody's peerset -/
+def partitionCase (res : Res) (has : Has) (peers : List Nat) : FCase :=
+  { retries := 0, init := [0, 1, 2], ops := [.rm 0 2 1 [.p] res 0 1 has],
+    obs := { members := [0, 1, 2].map (fun i => ({ id := i, peers := peers, pins := [], nonvoters := [] } : MemberObs)), gone := [] } }
+example : fAllowed (partitionCase .err .all [0, 1, 2]) = true ∧ fHolds (partitionCase .err .all [0, 1, 2]) = true ∧
+    fAllowed (partitionCase .ok .all [0, 1, 2]) = false ∧ fHolds (partitionCase .ok .all [0, 1, 2]) = false := by decide
+
 end CV.C17
